@@ -1,5 +1,6 @@
 use crate::dlt::{
     parse_dlt_with_serial_header, parse_dlt_with_storage_header, DltMessage, DltMessageIndexType,
+    DLT_MIN_STD_HEADER_SIZE, DLT_SERIAL_HEADER_SIZE, MIN_DLT_MSG_SIZE,
 };
 use slog::debug;
 use std::io::BufRead;
@@ -61,7 +62,16 @@ where
                         }
                         _ => {
                             if self.detected_storage_header {
-                                break;
+                                // not enough data. The reader keeps more than the largest message buffered until its
+                                // source is exhausted, so the missing data will not come (msg cut off or corrupt
+                                // length). Intact msgs might follow within the announced length, so skip like for
+                                // invalid data as long as a msg could still fit:
+                                if self.reader.fill_buf().unwrap().len() <= MIN_DLT_MSG_SIZE {
+                                    break;
+                                }
+                                self.bytes_processed += 1;
+                                self.bytes_skipped += 1;
+                                self.reader.consume(1);
                             } // else not enough data for a storage header msg but a (shorter) serial header msg might still fit
                         }
                     },
@@ -94,7 +104,16 @@ where
                             // we loop here again
                         }
                         _ => {
-                            break;
+                            // not enough data: see above
+                            if !self.detected_serial_header
+                                || self.reader.fill_buf().unwrap().len()
+                                    <= DLT_SERIAL_HEADER_SIZE + DLT_MIN_STD_HEADER_SIZE
+                            {
+                                break;
+                            }
+                            self.bytes_processed += 1;
+                            self.bytes_skipped += 1;
+                            self.reader.consume(1);
                         }
                     },
                 }
